@@ -1,3 +1,3 @@
 From Coq Require Import ExtrOcamlBasic ZArith.
-From CppUVerif Require Import C16_Events C20_Model.
-Extraction "c20_model.ml" C20_Model.run C20_Model.run_old_path C20_Model.run_old_group C20_Model.spec C20_Model.valid C20_Model.parse_result C20_Model.parse_result_any BinInt.Z.of_N.
+From CppUVerif Require Import C16_Events C20_Model C20_ModelX.
+Extraction "c20_model.ml" C20_Model.run C20_Model.run_old_path C20_Model.run_old_group C20_Model.spec C20_Model.valid C20_Model.parse_result C20_Model.parse_result_any C20_ModelX.xrun C20_ModelX.xrun_formatted C20_ModelX.xspec C20_ModelX.xvalid C20_ModelX.xrun_marks C20_ModelX.embed BinInt.Z.of_N.
